@@ -254,6 +254,10 @@ class PathInterp:
                 if cur is None:
                     break
                 t, f = self.on_test(s.test, cur)
+            elif isinstance(s, ast.For) and isinstance(s.iter, ast.Call) and norm(s.iter.func) in ('itertools.count', 'count', 'itertools.repeat',
+                                                                                                     'itertools.cycle') \
+                    and (norm(s.iter.func) != 'itertools.repeat' or len(s.iter.args) == 1):
+                t, f = cur, None            # an endless iterator: the loop is left only through break / return / raise
             else:
                 t, f = cur, cur
             exit_state = self._j(exit_state, f)
